@@ -27,4 +27,8 @@ let handle (s : Sexp.t) : string =
   | L [A "has-type"; v; t] -> bool_to_string (has_type (val_of_sexp v) (ty_of_sexp t))
   | L [A "untyped"; v] -> val_to_string false (val_of_sexp v)
   | L [A "wf-val"; v] -> bool_to_string (wf_val (val_of_sexp v))
-  | _ -> raise (Bad "unknown command")
+  | _ ->
+      let rec first = function
+        | [] -> raise (Bad "unknown command")
+        | h :: rest -> (match h s with Some r -> r | None -> first rest) in
+      first !Plug.handlers
